@@ -195,6 +195,13 @@ impl Write for Script {
         Ok(buf.len())
     }
 
+    fn write_all(&mut self, buf: &[u8]) -> io::Result<()> {
+        match self.write(buf) {
+            Ok(_) => Ok(()),
+            Err(e) => Err(e),
+        }
+    }
+
     fn flush(&mut self) -> io::Result<()> {
         self.flushes += 1;
         Ok(())
@@ -230,6 +237,14 @@ impl<const N: usize> Write for Sink<N> {
         self.out[self.len..self.len + buf.len()].copy_from_slice(buf);
         self.len += buf.len();
         Ok(buf.len())
+    }
+    // write() always takes the whole buffer: spelling write_all out avoids std's retry loop, which
+    // the symbolic executor cannot bound when the length of `buf` comes out of core::fmt
+    fn write_all(&mut self, buf: &[u8]) -> io::Result<()> {
+        match self.write(buf) {
+            Ok(_) => Ok(()),
+            Err(e) => Err(e),
+        }
     }
     fn flush(&mut self) -> io::Result<()> {
         Ok(())
